@@ -1058,3 +1058,34 @@ def r12r(ctx, rep, rule="R12r"):
         rep.fail(rule, key, "prepare_eval can return after compiling without passing a collection point: what macro expansion and "
                  "compilation allocated for an evaluation that is then never run is not reclaimed, and a sequence of such calls grows "
                  "the heap without bound while nothing is live", [f.blocks[b]["term"].get("loc") or f.span for b in bad][:2] or [f.span])
+
+
+def r07j(ctx, rep, rule="R07j"):
+    """a failed evaluation cannot be resumed"""
+    facts = ctx["facts"]
+    rep.rule(rule, "abandoned means not resumable (must-pass-through): run() and run_count() execute whatever %ip names, without "
+             "preparing anything. Every path in run_count from the Err edge of run_one's result to the return therefore passes a "
+             "write of the instruction pointer; otherwise %ip is left just behind the failing instruction, and a further run() — "
+             "the wasm front end exports it as eval_continue — carries on with the rest of the failed program on an empty stack, "
+             "performing effects the failed evaluation never completed.")
+    fn = need(rep, rule, facts, RUN_COUNT)
+    if fn is None:
+        return
+    ea = _err_arm(fn)
+    if ea is None:
+        rep.anchor_lost(rule, "match on run_one's result in run_count")
+        return
+    swb, tgt = ea
+    parking = set()
+    for bb, j, st in fn.stmts():
+        l = st["lhs"]
+        if l["l"] == 1 and [e.get("n") for e in l["p"] if isinstance(e, dict)][:1] == ["ip"]:
+            parking.add(bb)
+    region = fn.reach_from(tgt, avoid=parking)
+    escaping = [r for r in fn.return_blocks() if r in region]
+    key = "%s|run_count|err-exit-parks-ip" % rule
+    if escaping:
+        rep.fail(rule, key, "run_count returns from the error arm with %ip still inside the failed program: a run() that follows "
+                 "resumes it after the failing instruction", [fn.blocks[tgt]["term"].get("loc") or fn.span])
+    else:
+        rep.ok(rule, key, "every path from the error arm to the return moves %ip off the failed program", [fn.span])
